@@ -197,7 +197,8 @@ def k_rows(rep, tier):
                bounds='rows in [1,%d] symbolic, band index i symbolic in [0,n), band count n enumerated 1..64 (one query set per n); python ints as 32-bit vectors (no wrap in range), floats as IEEE binary64 RNE, int() as RTZ' % MAXROWS,
                assumes=['slice: the statements assigning row_min and row_max', 'NAXIS2 is a python int'])
     try:
-        fac, text = slicer.slice_function(F, 'load_image_band', targets=['row_min', 'row_max'], params=['header', 'band'], returns=['row_min', 'row_max'], closure=True, closure_exclude=['header', 'band', 'hdulist', 'compressed'])
+        lo, hi = slicer.names_by_role(F, 'load_image_band', 'section-rows') or ('row_min', 'row_max')
+        fac, text = slicer.slice_function(F, 'load_image_band', targets=[lo, hi], params=['header', 'band'], returns=[lo, hi], closure=True, closure_exclude=['header', 'band', 'hdulist', 'compressed'])
     except slicer.AnchorMissing as e:
         rep.inconc('anchor-missing %s' % e)
         return
@@ -249,8 +250,9 @@ def k_header(rep):
                stubs=['fits.open/section -> cut (FakeHDU)', 'linear pixel axis: a band pixel y maps to full pixel y+row_min iff CRPIX2_band == CRPIX2 - row_min and no other WCS key changes'],
                assumes=['slice: row arithmetic replaced by symbolic ints; statements assigning header[...] and the return statements kept with their enclosing ifs'])
     try:
+        lo, hi = slicer.names_by_role(F, 'load_image_band', 'section-rows') or ('row_min', 'row_max')
         fac, text = slicer.slice_function(F, 'load_image_band', targets=["header['NAXIS2']", "header['CRPIX2']", 'return', 'data'],
-                                          params=['header', 'hdulist', 'compressed', 'row_min', 'row_max', 'NAXIS', 'a', 'hdu_index', 'cube_index', 'band'])
+                                          params=['header', 'hdulist', 'compressed', lo, hi, 'NAXIS', 'a', 'hdu_index', 'cube_index', 'band'])
     except slicer.AnchorMissing as e:
         rep.inconc('anchor-missing %s' % e)
         return
